@@ -1964,6 +1964,21 @@ def setup():
             log(err_le[-1500:] + err_be[-1500:])
             print("HARNESS-ERROR: the big-endian host (Miri, %s) could not be started" % BE_TARGET)
             return 2
+        # the simulated CPU generations (overlay build of ppv-lite86, one interpreter build per generation) and the x86 variant of
+        # the thread / memory workloads
+        from concurrent.futures import ThreadPoolExecutor
+        with ThreadPoolExecutor(max_workers=len(CPU_LEVELS)) as ex:
+            rcs = list(ex.map(lambda c_: (c_, be_run(1, 1, "jh1", True, c_)), CPU_LEVELS))
+        for c_, (rc_c, out_c, err_c) in rcs:
+            if rc_c != 0:
+                log(err_c[-1500:])
+                print("HARNESS-ERROR: the %s (Miri) could not be started" % HOST_NAME[c_])
+                return 2
+        rc, out = miri_mem_run(1, 64, 1, 2, part=0, x86=True)
+        if rc != 0:
+            log(out[-2000:])
+            print("HARNESS-ERROR: Miri could not run the memory-pass binary on the x86 backend")
+            return 2
     except HarnessError as e:
         print("HARNESS-ERROR: %s" % e)
         return 2
